@@ -60,3 +60,21 @@ Definition run_cli (tbl : list (str * cres)) (outfile : str) (srcs : list str)
   otag "cli" [obs_result (go (d "-") no_flags); obs_result (go (d "-") nf);
               obs_file_result (go (d "-") no_flags) (go outfile no_flags);
               obs_file_result (go (d "-") nf) (go outfile nf)].
+
+(* ------------------------------------------------------------------ *)
+(* The same with the library compiler computed by the MODEL of the compiler (Comp/CompileText.v
+   compile_text, through Cli/CliCompile.v lib_compile) from the source texts of the case.  Supplied
+   by the harness: `ptbl` (the non-ASCII code points of the case for which str.isprintable holds, as
+   in Comp/RunCompile.v) and, for the texts that the implementation's library refuses, HOW it refuses
+   them (`fails`: CErr line col msg | CCrash) - error kinds and positions are not modelled.
+   The table is computed once (vm_compute is call by value) and printed first as the list of
+   verdicts, so that model-accepts / implementation-refuses disagreements are named directly. *)
+From YP Require Import Comp.CompileText Comp.RunCompile Cli.CliCompile.
+
+Definition verdict_obs (r : cres) : obs :=
+  match r with COk _ => otag "ok" [] | CErr _ _ _ => otag "err" [] | CCrash => otag "crash" [] end.
+
+Definition run_cli_text (ptbl : list N) (fails : list (str * cres)) (texts : list str)
+                        (outfile : str) (srcs : list str) (files : list (str * rdres)) (stdin : rdres) : obs :=
+  let tbl := map (fun t => (t, lib_compile (table_printable ptbl) (table_compile fails) t)) texts in
+  OL [OL (map (fun e => verdict_obs (snd e)) tbl); run_cli tbl outfile srcs files stdin].
